@@ -58,13 +58,14 @@ def isolated_registry():
 # ------------------------------------------------------------------------------- user-code seam
 
 class Frame:
-    __slots__ = ('script', 'path', 'fired', 'nested')
+    __slots__ = ('script', 'path', 'fired', 'nested', 'rec')
 
     def __init__(self, script, path):
         self.script = script or {}
         self.path = path
         self.fired = []        # [tag, pos, kind] in firing order
         self.nested = []       # (path, op, outcome) of nested operations
+        self.rec = None        # engine-specific per-call recording (packrat)
 
 
 _CTX = {}                      # thread ident -> ExecCtx
@@ -156,6 +157,7 @@ class Env:
         self.policy = policy
         self.allow_nest = allow_nest
         self.on_hook = None
+        self.on_call_end = None
         self.counters = {}
         self.watch_new = watch_new
         self.sim = None
@@ -237,10 +239,16 @@ def run_op(env, ctx, op, path=()):
             ctx.stack.pop()
             if saved_deadline is not None:
                 task.deadline = saved_deadline
+        if out.get('err') == 'nontermination' and ctx.stack:
+            # the budget belongs to the outermost operation: a nested call must not swallow it
+            raise mon.StepBudget()
         if task is not None:
             env.last_raw[task.i] = raw
-        return {'path': list(path), 'out': out, 'fired': fr.fired,
-                'steps': (task.local - start) if task is not None else 0, 'nested': fr.nested}
+        r = {'path': list(path), 'out': out, 'fired': fr.fired,
+             'steps': (task.local - start) if task is not None else 0, 'nested': fr.nested}
+        if fr.rec is not None and env.on_call_end is not None:
+            env.on_call_end(r, fr, op)
+        return r
     if kind == 'compile':
         return _run_compile(env, ctx, op, path)
     if kind == 'scramble':
